@@ -192,7 +192,15 @@ pub fn stash_handles(v: Vec<std::thread::JoinHandle<()>>) {
     STASH.lock().unwrap().extend(v);
 }
 
+/// set once a workload thread got stuck: its simulation stays installed (the thread cannot be
+/// stopped), so this process cannot run anything further and must end after reporting
+pub static PROCESS_STUCK: std::sync::atomic::AtomicBool = std::sync::atomic::AtomicBool::new(false);
+
 pub fn run_plan(plan: &Plan, replay: Option<Vec<u32>>) -> RunResult {
+    if PROCESS_STUCK.load(std::sync::atomic::Ordering::SeqCst) {
+        // (a variant tried while minimising, or a re-check, after an earlier run got stuck)
+        return RunResult { seed: plan.seed, stuck: true, ..Default::default() };
+    }
     set_parent_env(plan);
     let k = build_kernel(plan);
     let mut s = Sim::new(k, plan.knobs.sched_seed, replay, plan.knobs.personality, plan.knobs.cost_ns);
@@ -267,6 +275,7 @@ pub fn run_plan(plan: &Plan, replay: Option<Vec<u32>>) -> RunResult {
     }
     if stuck {
         // the thread cannot be stopped; report and let the caller end the process
+        PROCESS_STUCK.store(true, std::sync::atomic::Ordering::SeqCst);
         let s = sim();
         let label = s.threads.iter().filter_map(|t| t.lib_label.clone()).next().unwrap_or_else(|| "harness".into());
         let in_lib = s.k.in_lib.iter().any(|b| *b);
@@ -647,6 +656,11 @@ pub fn worker(cfg: &WorkerCfg) -> BatchOut {
             if std::fs::write(&fname, serde_json::to_vec_pretty(&rp).unwrap()).is_ok() {
                 out.replays.push(format!("{}\t{}", v.signature, fname));
             }
+        }
+        if PROCESS_STUCK.load(std::sync::atomic::Ordering::SeqCst) {
+            // a re-check or a variant tried while minimising got stuck
+            out.ended_early = Some(format!("index {}: a re-run of this index got stuck without system calls; worker ends here", i));
+            break;
         }
     }
     out.distinct_hashes = hashes.into_iter().collect();
